@@ -691,7 +691,8 @@ def opAlias (st : St) (head pathToks aliasToks allocToks : List String) : String
             | _ => "-")       -- the handed-out value is not the addressed leaf (a listed C01 finding): not judged here
        let allocOk : Bool := !cls || allocToks == ["-"] ||
          allocToks.all (fun t => match t.splitOn "=" with
-           | [k, c] => c == "0" || k == "loop" || k == "deq"
+           -- "slice Loop": a Loop that ends up iterating a map may allocate (key rendering, map iteration)
+           | [k, c] => c == "0" || (k == "loop" && loopsMap n v p)
            | _ => true)
        if model == "-" then "skip not-the-addressed-leaf"
        else if a == model then
